@@ -133,7 +133,7 @@ Definition invA_b (s : gst) (ths : list Z) : bool :=
   (negb (cancelled s) || Z.testbit (flags s) 0) && Bool.eqb (Z.testbit (flags s) 3) (negb (hasgrp s)) &&
   (0 <=? bodies s) && (0 <=? fin s) && (0 <=? ninv s) && ((ninv s <? 1) || (1 <=? fin s)) &&
   (performed s =? ninv s mod 4294967296) &&
-  (if hasgrp s then (gcount s + leaves s =? 1) && (0 <=? leaves s) && (leaves s <=? 1) && ((leaves s <? 1) || (1 <=? ninv s))
+  (if hasgrp s then (gcount s + leaves s =? 1) && (0 <=? leaves s) && (leaves s <=? 1) && ((leaves s <? 1) || (1 <=? ninv s) || dleave s)
    else (gcount s =? 0) && (leaves s =? 0) && (ninv s =? 0)) &&
   forallb (tinvA_b s) ths.
 
@@ -166,14 +166,27 @@ Definition invW_b (s : gst) (ths : list Z) : bool :=
   forallb (tinvW_b s) ths.
 
 Definition holding_pc (p : pc) : bool :=
-  match p with PSubmitCas _ | PSubmitRel _ | PRel _ | PWaitWake _ _ => true | _ => false end.
+  match p with PSubmitCas _ | PSubmitRel _ | PRel _ | PWaitWake _ _ | PDtorRel => true | _ => false end.
 Fixpoint nodupb (l : list Z) : bool :=
   match l with [] => true | x :: r => negb (existsb (Z.eqb x) r) && nodupb r end.
 Definition invQ_b (s : gst) (ths : list Z) : bool :=
   (qref s =? 2 * ((if queue s =? 0 then 0 else 1) + Z.of_nat (length (hands s)))) && nodupb (hands s) &&
   forallb (fun u => Bool.eqb (existsb (Z.eqb u) (hands s)) (holding_pc (pcs s u))) (ths ++ hands s).
 
-Definition inv_b (s : gst) (ths : list Z) : bool := invA_b s ths && invN_b s && invW_b s ths && invQ_b s ths.
+Definition dtor_pcb (p : pc) : bool := match p with PDtorPerf | PDtorLeave | PDtorPost | PDtorRel => true | _ => false end.
+Definition dtor_okb (p : pc) : bool := dtor_pcb p || match p with PRet _ | PIdle | PCrash => true | _ => false end.
+Definition invD_b (s : gst) (ths : list Z) : bool :=
+  nodupb (active s) &&
+  forallb (fun u => Bool.eqb (existsb (Z.eqb u) (active s)) (negb (pc_idle (pcs s u)))) (ths ++ active s) &&
+  (negb (disposed s) ||
+   match dtor s with Some d => dtor_okb (pcs s d) && forallb (fun u => (u =? d) || pc_idle (pcs s u)) ths | None => false end) &&
+  (disposed s || (negb (dleave s) && forallb (fun u => negb (dtor_pcb (pcs s u))) ths)) &&
+  (negb (dleave s) || ((performed s =? 0) && negb (Z.testbit (flags s) 2))) &&
+  (0 <=? pendsub s) &&
+  forallb (fun u => negb (match pcs s u with PDtorLeave => true | _ => false end) || (performed s =? 0)) ths.
+
+Definition inv_b (s : gst) (ths : list Z) : bool :=
+  invA_b s ths && invN_b s && invW_b s ths && invQ_b s ths && invD_b s ths.
 
 (* ------------------------------------------------------------------ the replay of one round *)
 Definition sumf (f : Z -> Z) (n : Z) : Z := fold_left (fun a i => a + f i) (ids n) 0.
